@@ -99,6 +99,66 @@ def linked_law_needs_active_contact(ctx):
                             f"excluding `{v} is None` first", f"{rel}:{ln.lineno}")
 
 
+def threshold_scale(ctx, rule="C16.R12"):
+    """The loop stops when the change `x1[:nu] - x0[:nu]` of the accelerations falls below a threshold and then returns the PREVIOUS iterate
+    of (u_dot, la_g, la_gamma) with the CURRENT contact forces.  With an absolute threshold the two agree to 1e-6.  A relative part scaled by
+    entries of x that are not accelerations (la_g: a clamp's reaction moment of 2.5e7) lifts the threshold above the whole effect of the
+    contact forces: the loop stops after one pass and returns the contact-free accelerations next to non-zero contact forces."""
+    rep = ctx.rep
+    fn = ctx.repo.get(SB, "consistent_initial_conditions")
+    C = f"{SB}:consistent_initial_conditions"
+    loops = [n for n in ast.walk(fn) if isinstance(n, ast.For) and any(isinstance(c, ast.Call) and dotted(c.func) == "prox" for c in ast.walk(n))]
+    if not loops:
+        rep.ok(rule, C, "fixed-point loop not found (no verdict)", verdict="unknown", trivial=True)
+        return
+    loop = loops[0]
+    binds = {}
+    for w in ast.walk(fn):
+        if isinstance(w, ast.Assign) and len(w.targets) == 1 and isinstance(w.targets[0], ast.Name):
+            binds.setdefault(w.targets[0].id, []).append(w.value)
+    diffs = [w for w in ast.walk(loop) if isinstance(w, ast.Assign) and len(w.targets) == 1 and isinstance(w.targets[0], ast.Name) and w.targets[0].id.startswith("diff")
+             and isinstance(w.value, ast.BinOp) and isinstance(w.value.op, ast.Sub)]
+    if not diffs:
+        rep.ok(rule, C, "no convergence difference `diff = a - b` in the loop (no verdict)", verdict="unknown", trivial=True)
+        return
+    d = diffs[0].value
+    ops = {}
+    for side in (d.left, d.right):
+        if isinstance(side, ast.Subscript) and isinstance(side.value, ast.Name):
+            ops[side.value.id] = norm_src(side.slice).replace(" ", "")
+        elif isinstance(side, ast.Name):
+            ops[side.id] = None
+    cmps = [w for w in ast.walk(loop) if isinstance(w, ast.Compare) and len(w.ops) == 1 and isinstance(w.ops[0], (ast.Lt, ast.LtE)) and any(isinstance(x, ast.Name) and x.id.startswith("error") for x in ast.walk(w.left))]
+    if not cmps:
+        rep.ok(rule, C, "no `error < threshold` test in the loop (no verdict)", verdict="unknown", trivial=True)
+        return
+    thr = cmps[0].comparators[0]
+    seen, work, bad = set(), [thr], None
+    while work and bad is None:
+        e = work.pop()
+        par = {}
+        for p_ in ast.walk(e):
+            for c_ in ast.iter_child_nodes(p_):
+                par[id(c_)] = p_
+        for x in ast.walk(e):
+            if isinstance(x, ast.Name) and x.id in ops:
+                pa = par.get(id(x))
+                sl = norm_src(pa.slice).replace(" ", "") if isinstance(pa, ast.Subscript) and pa.value is x else None
+                if sl != ops[x.id]:
+                    bad = (x, sl)
+                    break
+            elif isinstance(x, ast.Name) and x.id in binds and x.id not in seen and x.id not in ops:
+                seen.add(x.id)
+                work += binds[x.id]
+    if bad:
+        x, sl = bad
+        rep.bad(rule, C, cmps[0], f"the threshold `{norm_src(thr)[:60]}` is scaled by `{x.id}{'[' + sl + ']' if sl else ''}` while the measured change is `{norm_src(d)[:50]}`: entries of another kind (constraint "
+                "forces / moments of arbitrary magnitude) raise the threshold above the effect of the contact forces, the loop stops after its first pass and the contact-free accelerations are "
+                "returned together with non-zero contact forces (equations of motion, Signorini and Coulomb violated, no assertion fires)", f"{SB}:{cmps[0].lineno}")
+    else:
+        rep.ok(rule, C, f"threshold `{norm_src(thr)[:60]}` involves only the tolerances and the measured entries")
+
+
 def inactive_forces_zero(ctx, rule="C16.R11"):
     """u_dot0, la_g0 are solved with the forces of the ACTIVE contacts only (W_N[:, B_N] la_N1 + W_F[:, B_F] la_F1).  The returned full-length
     vectors satisfy the equations of motion and Signorini's law on acceleration level only if every other entry is zero.  That holds when the
@@ -270,6 +330,8 @@ def run(ctx):
     rep.rule("C16.R2", "rejection asserts dominate the normal return", 8)
     rep.rule("C16.R3", "evaluation point (t0, q0, u0)", 15)
     rep.rule("C16.R4", "acceleration-level prox template", 3)
+    rep.rule("C16.R12", "the threshold of the contact fixed point's convergence test is scaled, if at all, by the SAME entries whose change it measures (the accelerations), not by other unknowns of the linear system (constraint forces of any magnitude)", 1)
+    threshold_scale(ctx)
     rep.rule("C16.R11", "the contact forces assembly returns are ZERO outside the active sets by construction: la_N0 / la_F0 start as np.zeros(...) and only their active entries are stored; nothing of a previous assembly (or any other source) survives in the entries of open / separating contacts", 2)
     inactive_forces_zero(ctx)
     rep.rule("C16.R7", "a friction law that depends on a normal force reaches the prox loop only for an ACTIVE normal contact (else it is mistaken for a constant reservoir)", 1)
@@ -483,4 +545,12 @@ MUTANTS += [
     dict(id="c16-r11-seed", canary=True, what="[seeded by sub-agent] the contact fixed point is warm started with the forces of the previous assembly of the same system (entries of non-persistent contacts never reset)", file='cardillo/solver/_base.py',
          old="    la_N0 = np.zeros(system.nla_N)\n    la_F0 = np.zeros(system.nla_F)\n",
          new="    la_N0 = getattr(system, \"la_N0\", np.zeros(system.nla_N)).copy()\n    la_F0 = getattr(system, \"la_F0\", np.zeros(system.nla_F)).copy()\n", expect="C16.R11"),
+]
+
+MUTANTS += [
+    dict(id="c16-r12-seed", canary=True, what="[seeded by sub-agent] the initial contact fixed point gets a relative tolerance scaled by the whole solution vector (u_dot, la_g, la_gamma)", file='cardillo/solver/_base.py',
+         old='            converged_fixed_point = error_fixed_point < options.fixed_point_atol\n', new='            tol_fixed_point = options.fixed_point_atol + options.fixed_point_rtol * max(\n                np.max(np.absolute(x0)), np.max(np.absolute(x1))\n            )\n            converged_fixed_point = error_fixed_point < tol_fixed_point\n', expect="C16.R12"),
+]
+NEUTRAL += [
+    dict(id="c16-n-r12", canary=True, what="the initial contact fixed point gets a relative tolerance scaled by the accelerations it measures", file='cardillo/solver/_base.py', old='            converged_fixed_point = error_fixed_point < options.fixed_point_atol\n', new='            tol_fixed_point = options.fixed_point_atol + options.fixed_point_rtol * max(\n                np.max(np.absolute(x0[: system.nu])), np.max(np.absolute(x1[: system.nu]))\n            )\n            converged_fixed_point = error_fixed_point < tol_fixed_point\n'),
 ]
